@@ -26,7 +26,7 @@ func init() {
 		// integrity classification (clause 4)
 		{Pkg: sig, Type: "Envelope", Opaque: true},
 		{Pkg: sig, Func: "ParseEnvelope", Oracle: true},
-		{Pkg: sig, Func: "Envelope.Verify", Oracle: true},
+		{Pkg: sig, Func: "Envelope.Verify", Oracle: true, AnyReceiver: true},
 		// Refused, kept as documentation: `switch err.(type)` over the error of Envelope.Verify() (verifier/verifier.go:731)
 		{Pkg: v, Func: "verifyIntegrity", NonNil: true},
 		// the skip decision of notation.Verify. Refused: `notation.ErrorNoApplicableTrustPolicy{Msg: err.Error()}`
